@@ -9,6 +9,26 @@ use crate::wire::{data_of, escape};
 /// transformed and counted; o = outside a declared limit: must be NaN and not counted;
 /// e = edge / unclassified: only the general rules)
 fn case(g: &mut Gen, kind: &str, def: &str, dir: &str, worked: &str, kept: &str, pts: &[[f64; 4]], classes: &str, class: &str, model: bool) {
+    // the elements an operator leaves alone come back bit for bit - the sign of a zero included: a copy of the first
+    // point of the domain with minus zero in them
+    let mut pts: Vec<[f64; 4]> = pts.to_vec();
+    let mut classes = classes.to_string();
+    if !kept.is_empty() {
+        if let Some(at) = classes.chars().position(|c| c == 'i') {
+            if at < pts.len() {
+                let mut q = pts[at];
+                for c in kept.chars() {
+                    // (height and time only: the first two elements say where the point is)
+                    if let Some(j) = c.to_digit(10).filter(|j| *j >= 2) {
+                        q[j as usize] = -0.0;
+                    }
+                }
+                pts.push(q);
+                classes.push('i');
+            }
+        }
+    }
+    let (pts, classes) = (&pts[..], classes.as_str());
     g.push(format!("S_C10\t{kind}\t{}\t{dir}\t{worked}\t{kept}\t{}\t{classes}", escape(def), data_of(pts)), &format!("oracle-{class}"), true);
     if model {
         g.push(op_line("default", &[], &[], def, "apply", dir, &data_of(pts)), &format!("model-{class}"), true);
